@@ -40,5 +40,18 @@ func genLimiter(r *rng, seed uint64) *plan.Plan {
 		}
 		lp.Events = append(lp.Events, plan.LimEvent{AtUs: t, Addr: addrs[r.intn(len(addrs))], N: []int{1, 1, 2, 3, 15}[r.intn(5)]})
 	}
+	// concurrent first contacts
+	for b := 0; b < r.rng(1, 6); b++ {
+		t += r.i64(100_000, 200_000_000)
+		addr := fmt.Sprintf("%d.1.1.1", 50+b)
+		if r.p(0.3) {
+			addr = fmt.Sprintf("2a%02x:1::1", b)
+		}
+		if b > 0 && r.p(0.3) {
+			addr = lp.Bursts[r.intn(len(lp.Bursts))].Addr // a subnet seen before, maybe minutes ago
+		}
+		lp.Bursts = append(lp.Bursts, plan.LimBurst{AtUs: t, Addr: addr, K: r.rng(2, 12), N: []int{1, 1, 2, 3}[r.intn(4)]})
+	}
+	p.Knobs.YieldDensity = []float64{0.3, 0.6, 0.9}[r.intn(3)]
 	return p
 }
